@@ -182,6 +182,15 @@ def run(R):
     results = validate_traces(R, [t[0] for t in tA + tB])
     nacc = report_rejections(R, results, meta)
     R.add("traces_validated_against_impl", nacc)
+    if thorough:      # one chunk longer than 2^32 bytes (about 8.6 GiB of memory for ~20 s)
+        exe = R.cc("ss_huge", ["ss_huge.c"], "native")
+        hp = R.path("ss", "huge.ndjson")
+        R.run([exe, str(R.seed), hp], ok_codes=(0, 70), timeout=3000)
+        htotal, hbad = R.oracle("trace/OracleStream.tla", [hp], timeout=1200)
+        for b in hbad:
+            R.violation("a chunk of 2^32 + 4096 bytes is not the documented construction / does not round-trip: %s" % json.dumps({k: v for k, v in b.items() if k not in ("bytes", "k")})[:300],
+                        {k: v for k, v in b.items() if k != "bytes"}, name="hugechunk")
+        R.cov["huge_chunk_records"] = htotal
     R.cov["behaviours_from_tlc_replayed"] = len(scriptsA)
     R.cov["random_histories"] = len(scriptsB)
     R.cov["trace_events"] = sum(r.generated for (_, _, _, r) in results)
